@@ -48,7 +48,7 @@ func c12(c *Ctx) {
 				if !ok {
 					continue
 				}
-				r, p, okp := flow.AccessPath(st.Addr)
+				r, p, okp := flow.AccessPathC(st.Addr)
 				if !okp || flow.Root(r) != listObj || !strings.HasPrefix(p, "Items") {
 					continue
 				}
@@ -86,7 +86,7 @@ func c12(c *Ctx) {
 		for _, b := range ns.Blocks {
 			for _, in := range b.Instrs {
 				if st, ok := in.(*ssa.Store); ok {
-					if _, p, okp := flow.AccessPath(st.Addr); okp && p != "" {
+					if _, p, okp := flow.AccessPathC(st.Addr); okp && p != "" {
 						nStores++
 						if p != "Revision" || st.Val != ssa.Value(ns.Params[1]) {
 							good = false
@@ -103,7 +103,7 @@ func c12(c *Ctx) {
 			for _, in := range b.Instrs {
 				if st, ok := in.(*ssa.Store); ok && isFieldSel(st.Addr, "v1.CompositionRevision", "Spec") {
 					if ci, ok := st.Val.(*ssa.Call); ok && cfgx.CalleeName(ci) == xp+pkgComposition+".NewCompositionRevisionSpec" {
-						_, p, _ := flow.AccessPath(ci.Call.Args[0])
+						_, p, _ := flow.AccessPathC(ci.Call.Args[0])
 						okSpec = p == "Spec" && ci.Call.Args[1] == ssa.Value(nr.Params[1])
 					}
 				}
@@ -222,7 +222,7 @@ func c12(c *Ctx) {
 				if _, isPhi := leaf.(*ssa.Phi); isPhi {
 					continue
 				}
-				r, p, okp := flow.AccessPath(leaf)
+				r, p, okp := flow.AccessPathC(leaf)
 				if !(okp && p == "Spec.Revision" && r == latest.Value()) {
 					return false
 				}
@@ -233,7 +233,7 @@ func c12(c *Ctx) {
 		for _, b := range rec.Blocks {
 			for _, in := range b.Instrs {
 				if st, ok := in.(*ssa.Store); ok {
-					if _, p, okp := flow.AccessPath(st.Addr); okp && strings.HasSuffix(p, "Spec.Revision") {
+					if _, p, okp := flow.AccessPathC(st.Addr); okp && strings.HasSuffix(p, "Spec.Revision") {
 						revStore = st
 						c.R.Check(isLatestPlus1(st.Val), load.FuncName(rec)+": renumber = latestRev+1", c.pos(st.Pos()), "the number stored is LatestRevision().Spec.Revision + 1", "the revision number stored is not latest+1")
 					}
@@ -253,7 +253,7 @@ func c12(c *Ctx) {
 							if phi, isPhi := bo.X.(*ssa.Phi); isPhi {
 								fromRev := false
 								for _, leaf := range phiLeaves(phi) {
-									if _, p, okp := flow.AccessPath(leaf); okp && strings.HasSuffix(p, "Spec.Revision") {
+									if _, p, okp := flow.AccessPathC(leaf); okp && strings.HasSuffix(p, "Spec.Revision") {
 										fromRev = true
 									}
 								}
@@ -375,7 +375,7 @@ func c12(c *Ctx) {
 				differs = append(differs, cf.Holds...)
 			}
 			for _, cf := range findCmps(ft, false, func(x, y ssa.Value) bool {
-				_, px, _ := flow.AccessPath(x)
+				_, px, _ := flow.AccessPathC(x)
 				return px == "Name" && hasSuffixCall(y, ".GetName")
 			}) {
 				differs = append(differs, cf.Holds...)
@@ -401,7 +401,7 @@ func c12(c *Ctx) {
 		for _, b := range gl.Blocks {
 			for _, in := range b.Instrs {
 				if f, ok := in.(*ssa.FieldAddr); ok {
-					if _, p, _ := flow.AccessPath(f); strings.HasSuffix(p, "MatchLabels") {
+					if _, p, _ := flow.AccessPathC(f); strings.HasSuffix(p, "MatchLabels") {
 						n++
 						c.requireCross(load.FuncName(gl)+": selector labels", f, auto, "compositionUpdatePolicy == Automatic")
 					}
